@@ -342,6 +342,28 @@ fn p_ext_skip_wrap() {
     kani::cover!(m == 3, "return_wrap");
     kani::cover!(m == 6, "external trait, &mut");
 }
+#[kani::proof]
+#[kani::unwind(9)]
+fn p_ext_two_borrowed_children() {
+    // two borrowed wrapped children of the same type obtained from one object and HELD TOGETHER:
+    // each call reaches the child the direct call reaches (the second getter must not redirect
+    // the first result)
+    let s0: State = kani::any();
+    let (idl, idr, a, b): (u64, u64, u64, u64) = kani::any();
+    kani::assume(idl != idr);
+    let order: bool = kani::any();
+    let mut sd = s0;
+    let pd = Pair { left: Kid2 { st: &mut sd, id: idl }, right: Kid2 { st: &mut sd, id: idr } };
+    let (x1, y1) = { let (l, r) = if order { let l = pd.left(); let r = pd.right(); (l, r) } else { let r = pd.right(); let l = pd.left(); (l, r) }; (l.kid_get(a), r.kid_get(b)) };
+    let mut st = s0;
+    let p = Pair { left: Kid2 { st: &mut st, id: idl }, right: Kid2 { st: &mut st, id: idr } };
+    let obj = trait_obj!(&p as TPair);
+    let (x2, y2) = { let (l, r) = if order { let l = obj.left(); let r = obj.right(); (l, r) } else { let r = obj.right(); let l = obj.left(); (l, r) }; (l.kid_get(a), r.kid_get(b)) };
+    assert!(x1 == x2 && y1 == y2, "C01 same results as the direct calls (two borrowed children held together)");
+    assert!(st == sd, "C01 same instances reached as by the direct calls (two borrowed children held together)");
+    kani::cover!(order, "left first");
+    kani::cover!(!order, "right first");
+}
 //@ prefix=p_grp kind=property clause=group object and successful casts of it (cast!, as_ref!, as_mut!, into!): mandatory and optional trait methods satisfy the same contract, on the same instance
 #[kani::proof]
 #[kani::unwind(9)]
